@@ -155,4 +155,45 @@ theorem ppExp_rows (lt g : LType) (dt : DType) (lshape : List Nat) (rows : List 
       intro r hr
       obtain ⟨r0, _, rfl⟩ := List.mem_map.mp hr
       exact itemExp_length dt.eps lt g' hg r0)
+
+/-- the plain-Tensor branch and the LieTensor branch of `<lt>_type.Exp` coincide for an algebra type (every shape, also the
+rejected ones) -/
+theorem typeExp_eq_ppExp (lt : LType) (dt : DType) (shape : List Nat) (data : List α) (ha : lt.onManifold = true) :
+    typeExp lt dt shape data = ppExp lt dt shape data := by
+  cases lt <;> simp [LType.onManifold] at ha <;>
+    simp [typeExp, ppExp, mkLieTensor, bind, Except.bind, TensorV.Exp, LType.expTarget, TensorV.lshape] <;>
+    split_ifs <;> simp_all
+
+/-- a group type is rejected on both branches, whatever the tensor -/
+theorem typeExp_group (lt : LType) (dt : DType) (shape : List Nat) (data : List α) (hg : lt.onManifold = false) :
+    typeExp lt dt shape data = .error .noExp := by
+  cases lt <;> simp [LType.onManifold] at hg <;> simp [typeExp, LType.expTarget]
+
+theorem itemMatrix_length (g : LType) (hg : g.onManifold = false) (l : List α) : (itemMatrix g l).length = g.matN * g.matN := by
+  cases g <;> simp [LType.onManifold] at hg <;>
+    simp [itemMatrix, LType.matN, Mat3.toList, Vec3.toList, DMat.flat, SE3matrix, RxSO3matrix, Sim3matrix, matrix4, SO3matrix,
+      Mat3.ofCols]
+
+theorem expTarget_group (lt g : LType) (h : lt.expTarget = some g) : g.onManifold = false ∧ g.groupOf = g := by
+  cases lt <;> simp [LType.expTarget] at h <;> subst h <;> exact ⟨rfl, rfl⟩
+
+theorem matN_pos (g : LType) : 0 < g.matN * g.matN := by cases g <;> simp [LType.matN]
+
+/-- `pp.Exp(x).matrix()` on a well-formed batch: shape `lshape ++ [n, n]` and the `i`-th `n×n` block of the flat result is
+`matrix` of the kernel applied to row `i` -/
+theorem ppExp_matrix_rows (lt g : LType) (dt : DType) (lshape : List Nat) (rows : List (List α))
+    (hg : lt.expTarget = some g) (hlen : rows.length = numel lshape) (hrow : ∀ r ∈ rows, r.length = lt.dim) :
+    ∃ X, ppExp lt dt (lshape ++ [lt.dim]) rows.flatten = .ok X ∧
+      (X.matrix dt).1 = lshape ++ [g.matN, g.matN] ∧
+      chunks (g.matN * g.matN) (X.matrix dt).2 = rows.map (fun r => itemMatrix g (itemExp dt.eps lt r)) := by
+  obtain ⟨X, hX, hlt, hshape, _, hchunks⟩ := ppExp_rows lt g dt lshape rows hg hlen hrow
+  obtain ⟨hgm, hgg⟩ := expTarget_group lt g hg
+  refine ⟨X, hX, ?_, ?_⟩
+  · simp [TensorV.matrix, TensorV.lshape, hlt, hshape, hgg]
+  · simp only [TensorV.matrix, hlt, hgm, hgg, hchunks]
+    simp only [Bool.false_eq_true, if_false, List.map_map]
+    exact chunks_flatten _ (matN_pos g) _ (by
+      intro r hr
+      obtain ⟨r0, _, rfl⟩ := List.mem_map.mp hr
+      exact itemMatrix_length g hgm _)
 end PP
